@@ -52,8 +52,22 @@ def expected_outs(model_outs, hist, mode):
     return model_outs
 
 
-def run_history(d, hist, k, mode="default"):
-    """Feed the raw packet history to the real generator. Returns (outs as id lists, ngap, nnostart, problems)."""
+def thin_set(hist, k, salt):
+    """Indices (1-based) of CONTINUATION / LAST packets that carry no user data at all: a data field of exactly the k secondary-header
+    bytes, or (k >= 2) shorter than that. They contribute nothing to a combined packet."""
+    if k == 0:
+        return {}
+    return {i: (1 if k >= 2 and (i + salt) % 2 else k) for i, h in enumerate(hist, 1) if h[1] in (0, 2) and (i + salt) % 3 == 0}
+
+
+def visible(ids_lists, thin):
+    return [[i for i in ids if i not in thin] for ids in ids_lists]
+
+
+def run_history(d, hist, k, mode="default", thin=None):
+    """Feed the raw packet history to the real generator. Returns (outs as id lists, warning kinds, problems).
+    thin: {index: data length} for later segments without user data (they leave no trace in a combined packet)."""
+    thin = thin or {}
     from space_packet_parser.exceptions import UnrecognizedPacketTypeError
     kw = {"skipbad": {"parse_bad_pkts": False}, "unrec-skip": {}, "unrec-yield": {"yield_unrecognized_packet_errors": True}}.get(mode, {})
     stream = b""
@@ -61,6 +75,8 @@ def run_history(d, hist, k, mode="default"):
     for i, (apid, flag, seq) in enumerate(hist, 1):
         # k secondary-header bytes 0xEE, then a 3-byte payload that identifies raw packet i
         data = bytes([0xEE] * k) + bytes([0xD0, i >> 8, i & 0xFF])
+        if i in thin:
+            data = bytes([0xEE] * thin[i])
         p = defs.mk_packet(data, apid=apid, flags=flag, seq=seq)
         pk.append(p)
         stream += p
@@ -175,8 +191,12 @@ def run(ctx):
         k = (0, 2, 5)[ci % 3]
         # the options decide what is delivered, never how groups are collected and closed
         mode = MODES[(ci // 3) % 4] if ci % 2 else "default"
-        outs, wk, problems = run_history(definition_for(mode), hist, k, mode)
-        ctx.count(("A", k, tuple(hist), mode))
+        thin = thin_set(hist, k, ci) if ci % 4 == 1 else {}
+        outs, wk, problems = run_history(definition_for(mode), hist, k, mode, thin)
+        if thin:
+            ctx.tally("A_histories_with_segments_without_user_data")
+            c = dict(c, o=visible(c["o"], thin))
+        ctx.count(("A", k, tuple(hist), mode, tuple(sorted(thin))))
         ctx.tally("A_mode_" + mode)
         # every reassembled output that is recognised is longer than the header-only definition: one length-mismatch warning each
         nmm = len(c["o"]) if mode in ("default", "skipbad") else sum(1 for o in c["o"] if hist[o[0] - 1][0] != UNREC_APID)
@@ -195,7 +215,7 @@ def run(ctx):
         if prob:
             kind = "reuse" if any(len(set(x)) != len(x) for x in outs) or len({i for o in outs for i in o}) != sum(len(o) for o in outs) else "mismatch"
             ctx.violation(f"C12/replay/{kind}" + ("" if mode == "default" else "/" + mode), prob + ("" if mode == "default" else f" [options: {mode}]"),
-                          {"history": hist, "k": k, "model": c, "mode": mode})
+                          {"history": hist, "k": k, "model": c, "mode": mode, "thin": {str(a): b for a, b in thin.items()}})
     ctx.extra["A_histories_with_multi_segment_output"] = multi
     if multi == 0:
         ctx.vacuity("no replayed history produced a combined output")
@@ -254,7 +274,7 @@ def replay(ctx, obj):
     mode = obj.get("mode", "default")
     d = definition_for(mode)
     hist = [tuple(h) for h in obj["history"]]
-    outs, wk, problems = run_history(d, hist, obj.get("k", 0), mode)
+    outs, wk, problems = run_history(d, hist, obj.get("k", 0), mode, {int(a): b for a, b in obj.get("thin", {}).items()})
     ngap, nno = wk["gap"], wk["nostart"]
     if "model" in obj and (problems or outs != obj["model"]["o"] or wk["gap"] > obj["model"]["g"] or wk["nostart"] > obj["model"]["s"]
                            or (wk["other"] == 0 and (ngap, nno) != (obj["model"]["g"], obj["model"]["s"]))):
